@@ -27,6 +27,30 @@ file out, re-loaded with `xtuml.ModelLoader`).
      printer (`ooa_encoder.py_sql_text`) produces for the diagram, CREATE UNIQUE INDEX lines included.
   K  the same canonical definitions from the Lean model: `extract d`, `extract (applyEdits es d)` and
      `schemaEdits (resolveAll d es) (extract d)` (lean/PyxModel/Extract).
+
+Further families
+  rows      every R_REL row, whatever hangs on it (`ooa_encoder.gen_row_rels`): unformalised simple relationships (two
+            R_PART rows, no R_FORM; also reflexive), linked relationships whose link class holds no / only one side's
+            referential attributes, subtypes without referential attributes, subtype relationships without subtypes (with
+            and without R_SUPER), R_COMP, and populations no BridgePoint model holds: no R206 subtype row, two of them,
+            R_SIMP with one / no participant or R_FORM only, R_FORM with two participants, R_ASSOC without R_AONE / R_AOTH /
+            R_ASSR, R_SUB rows without R_SUPER, a participant of a class that does not exist.  D: the formalised
+            relationships define exactly their associations, and NO association without key pairs is defined (signature
+            `unformalised-association-defined`: an open finding - mk_association does define them, and the direction of an
+            unformalised simple relationship follows the order of its R_PART rows); scopes with missing rows are outside
+            the property.  K: every ending (definitions / AttributeError / TypeError / MetaModelException) equals
+            `buildAll` of the model.
+  twins     two of a kind: a second identifier over the same attributes, two classes with the same key letters (or
+            differing in letter case only) in different components, the same relationship number in two containers; every
+            entry point, edit scripts (the predicted schema edit is not compared: key letters are unique per scope only).
+  session   pattern "memoisation / aliasing / routes": ONE loaded population and ONE loader, first every route (mk_component,
+            ModelLoader.build_component, bridgepoint.load_component, gen_sql_schema.main) for one component - all must
+            agree with the specification -, then builds of other components / the whole model with either flag,
+            interleaved with edits of the population, gen_xsd_schema.build_schema on the same population and scribbling over
+            the component built last (attribute lists, identifiers, key lists, link properties); at the end the first
+            component again.  D: every build equals the specification of the population as edited so far (loader routes:
+            of the untouched model), mk_component leaves the population unchanged (decode before = decode after).
+            K: `buildOutcome (applyEdits es d)` per step.
 """
 import ast
 import copy
@@ -49,7 +73,11 @@ RULE = ('random class diagrams (1-5 classes, 0-6 relationships of every kind inc
         'of the attributes of each class up to 4 attributes, each Mult / Cond value and a new phrase at each end, each '
         'class / relationship to each container, each class moved out of / into the component together with its '
         'relationships, each class moved alone - the build must then raise MetaModelException because a relationship of the component lost a class) and random scripts; plus OPEN scopes on synthesised diagrams: components (nested ones, packages inside components) that hold a relationship but not all of its classes, initially or after unrestricted move edits - expected outcome MetaModelException, never a half-defined association; plus the SQL FILE character by character: for every third diagram (rows in modeled order) the text written by gen_sql_schema.main equals the specified text (CREATE TABLE per class sorted by upper-cased key letters, each followed by its CREATE UNIQUE INDEX lines, then the CREATE ROP lines sorted by rel_id). A case is non-trivial when the scope holds a formalised relationship and, '
-        'if it has edits, the edits change the result; distinct = distinct case content')
+        'if it has edits, the edits change the result; distinct = distinct case content; plus the families rows (every R_REL '
+        'row: unformalised / incomplete / subtype-less relationships, 24 kinds each generated at least 4 times), twins (second '
+        'identifier over the same attributes, same key letters in different components, same relationship number in '
+        'different containers) and session (4-14 builds by all routes from ONE loaded population, interleaved with edits, '
+        'XSD generation and mutation of the built component) - see the module docstring')
 EXHAUSTIVE = {'quick': False, 'thorough': False}
 ASSUMPTIONS = [
     'unresolved populations (a relationship names a class / attribute row that does not exist) are outside the property: '
@@ -58,6 +86,12 @@ ASSUMPTIONS = [
     'key letters / attribute names per class / relationship numbers / component names, formalised simple relationships, '
     'every relationship in scope has its classes in scope, referred identifiers consist of kept attributes, no EP_PKGREF',
     'names are SQL identifiers (reload) and phrases contain no quote: lexical matters belong to C01/C12',
+    'family rows: a scope holding a relationship with missing rows / no or two subtype rows is outside the property (D demands '
+    'nothing, K compares the ending); at most one such relationship per scope (which exception comes first depends on the '
+    'order of the R_REL rows); the order of the R_PART rows of one relationship is part of the diagram and survives the '
+    'shuffling of the rows',
+    'family twins: the scope of the build has distinct relationship numbers (numbers are unique per package); key letters '
+    'need only be distinct within the scope - a scope with two classes of the same key letters must be refused',
 ]
 TRUSTED_EXTRA = ['harness/ooa_encoder.py: diagram -> ooaofooa rows (cross-checked on sampled cases by the ooaofooa '
                  'consistency check restricted to the populated classes and by decode(load(encode d)) = d), '
@@ -97,8 +131,9 @@ def setup(ctx):
         l.filename_input(path)
         m = l.build_metamodel()
         d = E.decode(m)
-        if any(r['kind'][0] == 'unsupported' for r in d['rels']):
-            raise HarnessError('real model %s holds a relationship outside the modelled kinds' % name)
+        if d.get('rows'):
+            raise HarnessError('real model %s holds a relationship outside the regular shapes (rows: %d)'
+                               % (name, len(d['rows'])))
         real[name] = {'path': path, 'statements': l.statements, 'diagram': d}
     _ctx.update(xtuml=xtuml, bridgepoint=bridgepoint, ooaofooa=ooaofooa, base=base, nbase=nbase, tmp=tmp, real=real)
     E.predefined_dts()
@@ -131,6 +166,49 @@ def _script(rng, d, name, n, kinds=None):
         cur = nxt
         out.append(e)
     return out
+
+
+N_BENIGN = 14
+ROW_KINDS = ['unformal', 'unformal-reflexive', 'linked-unformal', 'linked-unformal-rows', 'sub-unformal', 'zero-subs',
+             'zero-subs-no-super', 'comp-rows', 'unformal', 'form-two-parts', 'two-subtypes-comp', 'linked-half',
+             'unformal', 'two-subtypes-simp',
+             'no-subtype', 'one-part', 'form-only', 'simp-bare', 'linked-no-aone', 'linked-no-aoth', 'linked-no-assr',
+             'linked-bare', 'subs-no-super', 'two-subtypes-assoc', 'unformal-ghost']
+
+
+def _row_classes(w):
+    out = [e[0] for e in [w['form'], w['aone'], w['aoth']] + list(w['parts']) if e is not None]
+    out += [x for x in (w['assr'], w['super']) if x is not None] + [sb[0] for sb in w['subs']]
+    return out
+
+
+def _rows_scope_closed(d, name):
+    """every row-given relationship inside the component has its classes inside (or names a class that does not exist)"""
+    comp = _comp_id(d, name)
+    if comp is None:
+        return True
+    inside = {c['id'] for c in d['classes'] if E.py_contained(d, comp, c['parent'])}
+    known = {c['id'] for c in d['classes']}
+    return all(c in inside or c not in known for x in d.get('rows', []) if E.py_contained(d, comp, x['parent'])
+               for c in _row_classes(x['rows']))
+
+
+def _numbers_distinct(d, name):
+    """the relationships in the scope of component `name` carry distinct numbers"""
+    comp = _comp_id(d, name)
+    nums = [x['numb'] for x in d['rels'] if E.py_in_scope(d, comp, x['parent'])]
+    return len(set(nums)) == len(nums)
+
+
+def _apply_all(d, edits):
+    for e in edits:
+        d = E.py_apply_edit(d, e)
+    return d
+
+
+def _scope_definable(d, name, drv):
+    st = E.py_select_comp(d, name)
+    return st[0] == 'ok' and E.py_resolved(d, st[1]) and E.py_definable(E.py_extract(d, st[1], drv))
 
 
 def _move_with_rels(d, c, target):
@@ -209,6 +287,82 @@ def generate(ctx):
                    'perm': r.randint(1, 1 << 30)}
         for name in ('NoSuchComponent', ''):
             yield {'src': 'real', 'model': model, 'comp': name, 'drv': False, 'edits': [], 'entry': 'build', 'perm': None}
+    # ---- every R_REL row, whatever hangs on it: unformalised simple / linked / subtype relationships, subtype
+    #      relationships without subtypes, R_COMP, missing end rows, no or two R206 subtype rows
+    for j in range(ctx.pick(160, 2000)):
+        r = rng.fork('rows', j)
+        base = E.gen_diagram(r, max_classes=4)
+        ids = iter(range(10 ** 7 + 1000 * j, 10 ** 7 + 1000 * (j + 1)))
+        want = [ROW_KINDS[j % len(ROW_KINDS)]] + ([ROW_KINDS[(j * 7 + 3) % N_BENIGN]] if j % 3 == 0 else []) \
+            if j < 4 * len(ROW_KINDS) else None
+        d, labels = E.gen_row_rels(r, base, lambda: next(ids), want)
+        if not labels:
+            continue
+        names = [nm for nm in E.comp_choices(d) if _rows_scope_closed(d, nm)]
+        holders = [nm for nm in names if nm is not None and any(
+            E.py_contained(d, _comp_id(d, nm), x['parent']) for x in d['rows'] + d['rels'][len(base['rels']):])]
+        name = r.choice(holders) if (holders and r.random() < 0.5) else None
+        yield {'src': 'synth', 'family': 'rows', 'diagram': d, 'comp': name, 'drv': r.random() < 0.5, 'edits': [],
+               'entry': r.choice(['mk', 'mk', 'build']), 'perm': r.randint(1, 1 << 30), 'labels': labels,
+               'audit': j % 3 == 0}
+    # ---- two of a kind: a second identifier over the same attributes, classes with the same key letters (also differing
+    #      in letter case only) in different components, the same relationship number in different containers
+    for j in range(ctx.pick(90, 1200)):
+        r = rng.fork('twins', j)
+        d = E.gen_diagram(r, max_classes=4, twin_idents=(j % 3 != 1), dup_key_letters=(j % 3 != 0),
+                          dup_rel_numbers=(j % 2 == 0))
+        names = [nm for nm in E.comp_choices(d) if _numbers_distinct(d, nm)]
+        if not names:
+            continue
+        inner = [nm for nm in names if nm is not None]
+        name = r.choice(inner) if (inner and r.random() < 0.7) else r.choice(names)
+        drv = r.random() < 0.5
+        entry = r.choice(['mk', 'mk', 'build', 'main', 'load'])
+        if entry == 'load':
+            drv = False
+        edits = []
+        if entry == 'mk' and r.random() < 0.6 and _scope_definable(d, name, drv):
+            cand = _script(r, d, name, r.randint(1, 3), ['rename', 'retype', 'reorder', 'mult', 'cond', 'phrase'])
+            if _valid_script(d, name, cand) and _scope_definable(_apply_all(d, cand), name, drv):
+                edits = cand
+        yield {'src': 'synth', 'diagram': d, 'comp': name, 'drv': drv, 'edits': edits, 'entry': entry,
+               'perm': r.randint(1, 1 << 30), 'audit': j % 4 == 0, 'twins': True}
+    # ---- sessions: several builds in ONE process from ONE loaded population (and one loader) - every route on the
+    #      untouched model, then builds of different components with either flag, interleaved with edits of the population,
+    #      XSD generation from the same population and mutation of the component built last; nothing may be remembered
+    for j in range(ctx.pick(70, 900)):
+        r = rng.fork('session', j)
+        d = E.gen_diagram(r, max_classes=4, twin_idents=(j % 3 == 0), dup_key_letters=(j % 4 == 1),
+                          dup_rel_numbers=(j % 4 == 3))
+        names = [nm for nm in E.comp_choices(d) if _numbers_distinct(d, nm)]
+        if not names:
+            continue
+        comps = [nm for nm in names if nm is not None]
+        nm0, drv0 = r.choice(comps or names), r.random() < 0.5
+        steps = [['build', route, nm0, drv0] for route in (['mk', 'build', 'main'] + ([] if drv0 else ['load']))]
+        cur = d
+        for _ in range(r.randint(4, ctx.pick(7, 10))):
+            x = r.random()
+            if x < 0.4:
+                steps.append(['build', r.choice(['mk', 'mk', 'mk', 'build']), r.choice(names), r.random() < 0.5])
+            elif x < 0.5 and comps:
+                steps.append(['xsd', r.choice(comps)])
+            elif x < 0.65:
+                steps.append(['mutate'])
+            else:
+                e = E.gen_edit(r, cur, _comp_id(cur, nm0))
+                if e is None:
+                    continue
+                nxt = E.py_apply_edit(cur, e)
+                if all(E.py_select_comp(nxt, nm)[0] == 'ok' and E.scope_valid(nxt, _comp_id(nxt, nm)) for nm in names):
+                    cur = nxt
+                    steps.append(['edit', e])
+                    if r.random() < 0.7:
+                        steps.append(['build', 'mk', nm0 if r.random() < 0.5 else r.choice(names), r.random() < 0.5])
+        steps.append(['build', 'mk', nm0, drv0])
+        steps.append(['build', 'build', nm0, drv0])
+        yield {'src': 'synth', 'family': 'session', 'diagram': d, 'comp': nm0, 'drv': drv0, 'edits': [], 'entry': 'session',
+               'steps': steps, 'perm': r.randint(1, 1 << 30), 'audit': j % 3 == 0}
     # ---- synthesised diagrams
     n = ctx.pick(320, 5000)
     for i in range(n):
@@ -320,6 +474,10 @@ def run_impl(case):
         fails.append({'sig': sig, 'what': '%s [component=%r derived=%r entry=%s edits=%s]' % (
             what, name, drv, entry, json.dumps(edits))})
 
+    if case.get('family') == 'rows':
+        return _run_rows(case, stats)
+    if case.get('family') == 'session':
+        return _run_session(case, stats)
     d1 = d0
     for e in edits:
         d1 = E.py_apply_edit(d1, e)
@@ -475,6 +633,221 @@ def _run_unresolved(case, stats):
     return {'obs': obs, 'd_fail': [], 'nontrivial': False, 'key': key, 'stats': stats}
 
 
+def _mutate_component(comp):
+    """scribble over everything a built component holds (attribute lists, identifiers, key lists, link properties)"""
+    for mc in list(comp.metaclasses.values()):
+        try:
+            if mc.attributes:
+                mc.attributes[0] = ('Zz_first', 'STRING')
+            mc.attributes.append(('Zz_added', 'INTEGER'))
+            for k in list(mc.indices):
+                mc.indices[k] = tuple(reversed(mc.indices[k])) + ('Zz',)
+            mc.indices['I9'] = ('Zz',)
+            mc.referential_attributes.add('Zz')
+            mc.identifying_attributes.clear()
+        except Exception:
+            pass
+    for ass in list(comp.associations):
+        for keys in (ass.source_keys, ass.target_keys):
+            try:
+                keys.append('Zz')
+                keys.reverse()
+            except Exception:
+                pass
+        for link in (ass.source_link, ass.target_link):
+            link.many, link.conditional, link.phrase = (not link.many), (not link.conditional), 'mutated'
+            link.key_map['Zz'] = 'Zz'
+    del comp.associations[:]
+    comp.metaclasses.clear()
+
+
+def _session_model_steps(case):
+    """(name, drv, edits applied so far) per build step: route 'mk' sees the edited population, every other route reads
+    the file / the loader's statements, i.e. the untouched model"""
+    out, edits = [], []
+    for st in case['steps']:
+        if st[0] == 'edit':
+            edits.append(st[1])
+        elif st[0] == 'build':
+            out.append([st[2], st[3], list(edits) if st[1] == 'mk' else []])
+    return out
+
+
+def _run_session(case, stats):
+    xtuml, ooaofooa, bridgepoint = _ctx['xtuml'], _ctx['ooaofooa'], _ctx['bridgepoint']
+    from bridgepoint import gen_xsd_schema
+    d0 = case['diagram']
+    fails, answers = [], []
+
+    def fail(sig, what, i):
+        fails.append({'sig': sig, 'what': '%s [step %d of %s]' % (what, i, json.dumps(case['steps']))})
+
+    with tempfile.TemporaryDirectory(dir=_ctx['tmp']) as tmpdir:
+        loader, path = _loader_for(case, tmpdir)
+        m = loader.build_metamodel()
+        if case.get('audit'):
+            _audit(m, d0)
+        cur, last = d0, None
+        for i, st in enumerate(case['steps']):
+            stats['step_' + st[0] + ('_' + st[1] if st[0] == 'build' else '')] = \
+                stats.get('step_' + st[0] + ('_' + st[1] if st[0] == 'build' else ''), 0) + 1
+            if st[0] == 'edit':
+                E.pop_apply_edit(m, st[1])
+                cur = E.py_apply_edit(cur, st[1])
+                continue
+            if st[0] == 'xsd':
+                c_c = m.select_any('C_C', xtuml.where_eq(Name=st[1]))
+                gen_xsd_schema.build_schema(m, c_c)
+                continue
+            if st[0] == 'mutate':
+                if last is not None:
+                    _mutate_component(last)
+                    last = None
+                continue
+            _, route, name, drv = st
+            dd = cur if route == 'mk' else d0
+            sel = E.py_select_comp(dd, name)
+            want = E.py_extract(dd, sel[1], drv)
+            definable = E.py_definable(want)
+            before = E.normal_diagram(E.decode(m)) if (route == 'mk' and case.get('audit')) else None
+            try:
+                if route == 'mk':
+                    c_c = m.select_any('C_C', xtuml.where_eq(Name=name)) if name is not None else None
+                    last = ooaofooa.mk_component(m, c_c, drv)
+                    got = E.canon_metamodel(last)
+                elif route == 'build':
+                    last = loader.build_component(name, drv)
+                    got = E.canon_metamodel(last)
+                elif route == 'load':
+                    last = bridgepoint.load_component(path, name)
+                    got = E.canon_metamodel(last)
+                else:
+                    out = os.path.join(tmpdir, 'schema%d.sql' % i)
+                    got = _run_main(['gen_sql_schema', '-o', out] + (['-c', name] if name is not None else []) +
+                                    (['-d'] if drv else []) + [path], out)
+                obs = ['ok', got]
+            except xtuml.MetaModelException:
+                obs = ['error', 'MetaModelException']
+            except ooaofooa.OoaOfOoaException:
+                obs = ['error', 'OoaOfOoaException']
+            answers.append(obs)
+            if before is not None and E.normal_diagram(E.decode(m)) != before:
+                fail('population-modified', 'mk_component changed the ooaofooa population it was given', i)
+            if obs[0] == 'ok' and not definable:
+                fail('dangling-association-accepted', 'a component was built although a definition is impossible (a class of '
+                     'a relationship outside the scope, or two classes with the same key letters): %s' % json.dumps(obs[1]), i)
+            elif obs[0] == 'ok' and obs[1] != want:
+                fail('session:' + _first_diff(obs[1], want), 'route %s, component %r, derived=%r defines %s, the class model '
+                     '(as edited so far) specifies %s' % (route, name, drv, json.dumps(obs[1]), json.dumps(want)), i)
+            elif obs[0] == 'error' and definable:
+                fail('component-rejected', '%s raised by route %s although every definition is possible' % (obs[1], route), i)
+            if fails:
+                break
+    stats['session_builds'] = len(answers)
+    key = hashlib.sha1(json.dumps(case, sort_keys=True, default=str).encode()).hexdigest()
+    return {'obs': ['session', answers], 'd_fail': fails[:3], 'key': key, 'stats': stats,
+            'nontrivial': len({json.dumps(a) for a in answers}) > 1}
+
+
+def _strip_keyless(schema):
+    """the canonical schema without the associations that have no key pair"""
+    groups = []
+    for numb, items in schema[1]:
+        kept = [it for it in items if it[0][1]]
+        if kept:
+            groups.append([numb, kept])
+    return [schema[0], groups]
+
+
+def _keyless(schema):
+    return [[numb, it] for numb, items in schema[1] for it in items if not it[0][1]]
+
+
+def _build_rows(case, d, tmpdir):
+    """mk_component / build_component for a rows case -> observation"""
+    xtuml, ooaofooa = _ctx['xtuml'], _ctx['ooaofooa']
+    name, drv = case['comp'], case['drv']
+    loader, _ = _loader_for(dict(case, diagram=d), tmpdir)
+    try:
+        if case['entry'] == 'mk':
+            m = loader.build_metamodel()
+            if case.get('audit') and d is case['diagram']:
+                if E.normal_diagram(E.decode(m)) != E.normal_diagram(d):
+                    raise HarnessError('decode(load(encode(diagram))) differs from the diagram (rows family)')
+            c_c = m.select_any('C_C', xtuml.where_eq(Name=name)) if name is not None else None
+            got = E.canon_metamodel(ooaofooa.mk_component(m, c_c, drv))
+        else:
+            got = E.canon_metamodel(loader.build_component(name, drv))
+        return ['ok', got, got]
+    except AttributeError:
+        return ['error', 'AttributeError']
+    except TypeError:
+        return ['error', 'TypeError']
+    except xtuml.MetaModelException:
+        return ['error', 'MetaModelException']
+    except ooaofooa.OoaOfOoaException:
+        return ['error', 'OoaOfOoaException']
+
+
+def _run_rows(case, stats):
+    """relationships outside the formalised shapes.  The property speaks about FORMALISED relationships of well-formed
+    populations: D demands (1) exactly their associations, with their key pairs, and (2) — "one association per formalised
+    relationship", read as "and none for the others" — no association without key pairs.  A scope that holds a
+    relationship with missing rows is outside the property (D demands nothing); K compares every ending with
+    `buildAll` of the model."""
+    d, name, drv = case['diagram'], case['comp'], case['drv']
+    comp = _comp_id(d, name)
+    fails = []
+    scoped = [(x, E.rows_of_kind(x['kind'])) for x in d['rels'] if E.py_in_scope(d, comp, x['parent'])] + \
+             [(x, x['rows']) for x in d.get('rows', []) if E.py_in_scope(d, comp, x['parent'])]
+    classes = []
+    for x, w in scoped:
+        cls = E.py_rows_class(d, w)
+        nsub = sum(1 for f in ('simp', 'assoc', 'subsup', 'comp') if w[f])
+        if nsub > 1 or (w['simp'] and w['form'] and len(w['parts']) > 1) or (w['comp'] and nsub == 1 and w['parts']):
+            cls = 'malformed:' + cls            # more rows than a BridgePoint model can hold
+        classes.append(cls)
+        stats['rowclass_' + cls] = stats.get('rowclass_' + cls, 0) + 1
+    for lb in case.get('labels', []):
+        stats['rowkind_' + lb] = stats.get('rowkind_' + lb, 0) + 1
+    outside = any(c.startswith('malformed') or c in ('no-subtype', 'incomplete', 'unresolved') for c in classes)
+    stats['rows_outside_property'] = int(outside)
+    with tempfile.TemporaryDirectory(dir=_ctx['tmp']) as tmpdir:
+        obs = _build_rows(case, d, tmpdir)
+        if not outside:
+            if obs[0] != 'ok':
+                fails.append({'sig': 'component-rejected', 'what': '%s raised although every relationship in scope has all '
+                              'its rows [component=%r labels=%s]' % (obs[1], name, case.get('labels'))})
+            else:
+                want = _strip_keyless(E.py_extract(d, comp, drv))
+                got = _strip_keyless(obs[1])
+                if got != want:
+                    fails.append({'sig': _first_diff(got, want), 'what': 'the formalised relationships define %s, the class '
+                                  'model specifies %s [component=%r]' % (json.dumps(got), json.dumps(want), name)})
+                extra = _keyless(obs[1])
+                if extra and not fails:
+                    # does the direction of an unformalised simple relationship follow the order of its R_PART rows?
+                    flipped = ''
+                    unf = [x for x, w in scoped if 'rows' in x and w['simp'] and not w['form'] and len(w['parts']) == 2
+                           and not w['assoc'] and not w['comp']]
+                    if unf:
+                        d2 = copy.deepcopy(d)
+                        for x in d2['rows']:
+                            if x['id'] == unf[0]['id']:
+                                x['rows']['parts'].reverse()
+                        obs2 = _build_rows(case, d2, tmpdir)
+                        if obs2 != obs:
+                            flipped = '; with the two R_PART rows of R%d in the other order the build gives %s' % (
+                                unf[0]['numb'], json.dumps(_keyless(obs2[1]) if obs2[0] == 'ok' else obs2))
+                    fails.append({'sig': 'unformalised-association-defined', 'what':
+                                  'associations without any key pair are defined for relationships that are not formalised '
+                                  '(no R_FORM / no O_REF rows): %s%s [component=%r labels=%s]'
+                                  % (json.dumps(extra), flipped, name, case.get('labels'))})
+    key = hashlib.sha1(json.dumps(case, sort_keys=True, default=str).encode()).hexdigest()
+    nontrivial = any(c != 'formalised' for c in classes)
+    return {'obs': obs, 'd_fail': fails[:3], 'nontrivial': nontrivial, 'key': key, 'stats': stats}
+
+
 class _AfterEdits(Exception):
     """mk_component raised MetaModelException after the edits; carries the definitions before the edits"""
 
@@ -535,19 +908,34 @@ def _first_diff(got, want):
 def model_line(case):
     d = _diagram_of(case)
     name = Sym('none') if case['comp'] is None else case['comp']
+    if case.get('family') == 'rows':
+        return dumps([Sym('c14-rows'), E.diagram_sexp(d), name, bool(case['drv'])])
+    if case.get('family') == 'session':
+        return dumps([Sym('c14-session'), E.diagram_sexp(d),
+                      [[Sym('none') if nm is None else nm, bool(drv), [E.edit_sexp(e) for e in es]]
+                       for nm, drv, es in _session_model_steps(case)]])
     if case['entry'] == 'sqltext':
         return dumps([Sym('c14-sql'), E.diagram_sexp(d), name, bool(case['drv'])])
     return dumps([Sym('c14-edit'), E.diagram_sexp(d), name, bool(case['drv']), [E.edit_sexp(e) for e in case['edits']]])
 
 
 def model_obs(case, ans):
+    if case.get('family') == 'session':
+        return ['session', [['ok', E.canon_schema_sexp(a[1])] if a[0] == 'ok' else ['error', str(a[1])] for a in ans]]
     if ans[0] == 'error':
         return ['error', str(ans[1])]
     if ans[0] == 'ok-error':
         return ['ok-error', E.canon_schema_sexp(ans[1]), str(ans[2])]
     if case['entry'] == 'sqltext':
         return ['text', ans[1]]
+    if case.get('family') == 'rows':
+        s0 = E.canon_schema_sexp(ans[1])
+        return ['ok', s0, s0]
     s0, s1, s2 = (E.canon_schema_sexp(x) for x in ans[1:4])
+    if case.get('twins'):
+        # key letters / relationship numbers are not unique over the whole diagram (only within the scope): outside the
+        # hypothesis WF of the edit theorems, whose predicted edit addresses classes by key letters - the builds only
+        return ['ok', s0, s1]
     if s1 != s2:
         return ['model-inconsistent', s1, s2]
     return ['ok', s0, s1]
@@ -566,6 +954,24 @@ def shrink_candidates(case):
         c['edits'] = edits[:i] + edits[i + 1:]
         yield c
     if case['src'] != 'synth':
+        return
+    if case.get('family') == 'session':
+        steps = case['steps']
+        for i in range(len(steps)):
+            if steps[i][0] != 'edit':
+                c = dict(case)
+                c['steps'] = steps[:i] + steps[i + 1:]
+                yield c
+        return
+    if case.get('family') == 'rows':
+        for i in range(len(case['diagram'].get('rows', []))):
+            c = copy.deepcopy(case)
+            del c['diagram']['rows'][i]
+            yield c
+        for i in range(len(case['diagram']['rels'])):
+            c = copy.deepcopy(case)
+            del c['diagram']['rels'][i]
+            yield c
         return
     d = case['diagram']
     used_attrs = set()
